@@ -256,7 +256,7 @@ func CheckC11(r *Run) int {
 	}
 	r.Native = nat
 	quick := r.Tier == "quick"
-	nRaw := 3
+	nRaw := 4
 	if quick {
 		nRaw = 2
 	}
@@ -287,7 +287,7 @@ func CheckC11(r *Run) int {
 				segs = append(segs, gosym.Seg{B: b})
 			}
 			return lexCompare(r, c, ids, gosym.Str{Segs: segs})
-		}, gosym.ExploreOpts{Workers: r.Workers, OnPath: onPath, TimeoutMS: 10000})
+		}, gosym.ExploreOpts{Workers: r.Workers, OnPath: onPath, TimeoutMS: 10000, Budget: gosym.Budget{MaxPaths: 6_000_000}})
 		r.Absorb(fmt.Sprintf("H_C11_bytes(n=%d)", n), st, fmt.Sprintf("source = %d fully symbolic bytes (all 256 values each)", n))
 	}
 	// Harness B: templates whose holes are symbolic bytes (interactions of adjacent lexemes that
